@@ -1019,6 +1019,9 @@ pub struct ObjFiber {
     pub(crate) exc_handlers: Vec<ExcHandler>,
     pub(crate) return_ip: Option<*const u8>,
     pub(crate) error_ip: Option<(*const u8, usize)>,
+    /// Whether an exception was propagating through a finally block of this fiber when control
+    /// last left it: the interpreter's flag travels with the fiber it belongs to.
+    pub(crate) handling_exception: bool,
 }
 
 impl ObjFiber {
@@ -1042,6 +1045,7 @@ impl ObjFiber {
             exc_handlers: Vec::new(),
             return_ip: None,
             error_ip: None,
+            handling_exception: false,
         }
     }
 
